@@ -3,6 +3,7 @@
 -/
 import XonshVerif.Model.Wire
 import XonshVerif.Model.ProcArgs
+import XonshVerif.Model.DriverPeg
 namespace XV.Driver
 open XV XV.Wire
 
@@ -29,6 +30,7 @@ partial def encArg : Arg → String
 def handle (line : String) : String :=
   match fields line with
   | "procargs" :: rest => " ".intercalate ((procArgs (readPieces rest)).map encArg)
+  | "parse" :: rest => handleParse rest
   | "ping" :: _ => "pong"
   | _ => "bad-request"
 
